@@ -49,6 +49,13 @@ type redisProc struct {
 	cmdHdlrs map[string]*commandHandler
 	wg       sync.WaitGroup
 
+	// sessions is used to tell the sessions to quit when the processor
+	// stops, closing their connections doesn't wake the ones which wait for
+	// the room of a full pipeline or for the response of a silent backend.
+	sessionsMu sync.Mutex
+	sessions   map[*session]struct{}
+	stopped    bool
+
 	cfg *config
 }
 
@@ -60,6 +67,7 @@ func newRedisProc(svcName string, svcCfg *service.Config, svcHosts []*host.Host,
 		stats:    stats,
 		logger:   logger,
 		cmdHdlrs: make(map[string]*commandHandler),
+		sessions: make(map[*session]struct{}),
 	}
 
 	l, err := proc.NewListener(p.cfg.Listener, p.stats.Downstream, logger, p.handleConn)
@@ -161,6 +169,7 @@ func (p *redisProc) StopListen() error {
 }
 
 func (p *redisProc) Stop() error {
+	p.quitSessions()
 	p.l.Stop()
 	p.u.Stop()
 	p.wg.Wait()
@@ -169,7 +178,34 @@ func (p *redisProc) Stop() error {
 
 func (p *redisProc) handleConn(conn net.Conn) {
 	s := newSession(p, conn)
+	p.addSession(s)
 	s.Serve()
+	p.removeSession(s)
+}
+
+func (p *redisProc) addSession(s *session) {
+	p.sessionsMu.Lock()
+	defer p.sessionsMu.Unlock()
+	if p.stopped {
+		s.doQuit()
+		return
+	}
+	p.sessions[s] = struct{}{}
+}
+
+func (p *redisProc) removeSession(s *session) {
+	p.sessionsMu.Lock()
+	defer p.sessionsMu.Unlock()
+	delete(p.sessions, s)
+}
+
+func (p *redisProc) quitSessions() {
+	p.sessionsMu.Lock()
+	defer p.sessionsMu.Unlock()
+	p.stopped = true
+	for s := range p.sessions {
+		s.doQuit()
+	}
 }
 
 func (p *redisProc) handleRequest(req *rawRequest) {
